@@ -11,6 +11,10 @@ def run(prop, tier, seed_, replay=None):
         from . import c18
 
         return c18.run(tier, seed_)
+    if prop == "X01":
+        from . import x01
+
+        return x01.run(tier, seed_)
     if prop in checks.CORE_PROPS:
         if replay:
             return checks.replay(prop, replay)
